@@ -82,6 +82,54 @@ def test_locks():
     record('Lock/RLock sequential differential', n[0])
 
 
+# 1b. Event / Semaphore ---------------------------------------------------------
+def test_event_semaphore():
+    n = [0]
+
+    @seed(6)
+    @settings(max_examples=300, **SET)
+    @given(st.lists(st.sampled_from(['set', 'clear', 'is_set', 'wait0', 'wait-set']), max_size=10),
+           st.integers(0, 3), st.lists(st.sampled_from(['acq-nb', 'rel', 'acq-t0', 'bad']), max_size=10), st.booleans())
+    def t(eops, value, sops, bounded):
+        n[0] += 1
+
+        def drive_event(ev):
+            out = []
+            for op in eops:
+                if op == 'set':
+                    ev.set()
+                elif op == 'clear':
+                    ev.clear()
+                elif op == 'is_set':
+                    out.append(ev.is_set())
+                elif op == 'wait0':
+                    out.append(ev.wait(0))
+                else:
+                    out.append(ev.wait() if ev.is_set() else 'would-block')
+            return out
+
+        def drive_sem(sem):
+            out = []
+            for op in sops:
+                try:
+                    if op == 'acq-nb':
+                        out.append(sem.acquire(False))
+                    elif op == 'acq-t0':
+                        out.append(sem.acquire(True, 0))
+                    elif op == 'rel':
+                        out.append(sem.release())
+                    else:
+                        out.append(sem.acquire(False, 1))
+                except ValueError:
+                    out.append('ValueError')
+            return out
+        assert drive_event(threading.Event()) == in_sim(lambda s: drive_event(shims.SimEvent(s)))
+        mk_real = (threading.BoundedSemaphore if bounded else threading.Semaphore)
+        assert drive_sem(mk_real(value)) == in_sim(lambda s: drive_sem(shims.SimSemaphore(s, value, bounded)))
+    t()
+    record('Event / (Bounded)Semaphore sequential differential', n[0])
+
+
 # 2. Queue --------------------------------------------------------------------
 def test_queue():
     n = [0]
@@ -302,6 +350,7 @@ def main():
     t0 = time.time()
     try:
         test_locks()
+        test_event_semaphore()
         test_queue()
         test_executor()
         test_flock()
